@@ -32,7 +32,7 @@ def auto_lons(prj, tier, seed):
         out = [x for x in out if (138.0 <= x < 156.0) or (158.0 <= x < 160.0)]
         return uniq(out)
     lo = icm - 0.5 * zw          # western edge of zone 1
-    nz = 60
+    nz = cfg.n_zones(prj)
     hi = min(180.0, lo + nz * zw)
     for k in range(nz + 1):
         b = lo + k * zw
@@ -44,18 +44,19 @@ def auto_lons(prj, tier, seed):
             out.append(cm + d)
     step = 6.0 if tier == 'quick' else 1.5
     out += fill(lo + 0.7, hi, step, seed, 4)
-    out += [-180.0, 180.0 - 1e-6]
+    out += [-180.0, 180.0 - 1e-6, lo, hi - 1e-6]
     # statement: lon in [-180, 180); zones beyond 60 are outside the API's domain (3-degree layout)
-    out = [x for x in out if -180.0 <= x < 180.0 and x < hi - 1e-12]
+    out = [x for x in out if -180.0 <= x < 180.0 and lo <= x < hi - 1e-12]
     return uniq(out)
 
 
 def explicit_zones(prj, tier):
     if prj == 'isg':
         return sorted(cfg.ISG_CM)
+    nz = cfg.n_zones(prj)
     if tier == 'thorough':
-        return list(range(1, 61))
-    return [1, 2, 30, 31, 55, 59, 60]
+        return list(range(1, nz + 1))
+    return sorted({z for z in [1, 2, 30, 31, 55, 59, 60] if z <= nz} | {nz, max(1, nz // 2)})
 
 
 def gen_rows(tier, seed, configs=None, kinds=True, lat_fn=None):
